@@ -29,10 +29,9 @@ Definition cm_log (outs : list (Z + Z)) : op nat (list Z) Z Z :=
              | None => (inr (-99), S k)
              end.
 
-Definition judge (t : tree) : option (list Z) :=
-  match t with
-  | L [L [A mode; pop; A fail_at]; L [res; final; lg]] =>
-    olet pop := tlist tZ pop in olet final := tlist tZ final in olet lg := tlist dec_entry lg in
+(* one step of one Generation value: the population before it, what was asked, what was observed *)
+Definition step_ok (mode : Z) (pop : list Z) (fail_at : Z) (res final_t lg_t : tree) : option (bool * bool * bool * list Z) :=
+    olet final := tlist tZ final_t in olet lg := tlist dec_entry lg_t in
     let n := length pop in
     let outs := map outcome lg in
     let children := flat_map (fun o => match o with inl c => [c] | inr _ => [] end) outs in
@@ -62,7 +61,32 @@ Definition judge (t : tree) : option (list Z) :=
             else (Z.of_nat (length lg) <=? Z.of_nat n))
       | _ => false
       end in
+    Some (ok, saw_old, fresh, final).
+
+(* further steps of the SAME Generation value: each is judged from the population the previous step left *)
+Fixpoint steps_ok (pop : list Z) (steps obs : list tree) : option bool :=
+  match steps, obs with
+  | [], [] => Some true
+  | L [A mode; A fail_at] :: steps', L [res; final; lg] :: obs' =>
+    olet r := step_ok mode pop fail_at res final lg in
+    let '(ok, _, _, final) := r in
+    olet rest := steps_ok final steps' obs' in Some (ok && rest)
+  | _, _ => None
+  end.
+
+Definition judge (t : tree) : option (list Z) :=
+  match t with
+  | L [L [A mode; pop; A fail_at]; L [res; final; lg]] =>
+    olet pop := tlist tZ pop in
+    olet r := step_ok mode pop fail_at res final lg in
+    let '(ok, saw_old, fresh, _) := r in
     Some [if ok then 0 else 2; if saw_old then 0 else 1; if fresh then 0 else 1]
+  | L [L [A mode; pop; A fail_at; L steps]; L [res; final; lg; L obs]] =>
+    olet pop := tlist tZ pop in
+    olet r := step_ok mode pop fail_at res final lg in
+    let '(ok, saw_old, fresh, final) := r in
+    olet rest := steps_ok final steps obs in
+    Some [if ok && rest then 0 else 2; if saw_old then 0 else 1; if fresh then 0 else 1]
   | L [_; L [A (-1)]] => Some [2; 9]
   | _ => None
   end.
